@@ -249,6 +249,13 @@ func (c *Ctx) paramNonEmpty(f *core.Func, p *types.Var, visiting map[*core.Func]
 			whys = append(whys, cs.in.Short+": "+why)
 			continue
 		}
+		// a reduce action handing over a $n that GR3 proves non-empty
+		if cs.in.Generated || c.P.Fset.Position(cs.call.Pos()).Filename == c.generatedFileOf(cs.in) {
+			if ok, why := c.reduceArgNonEmpty(cs.call, arg); ok {
+				whys = append(whys, why)
+				continue
+			}
+		}
 		// the caller's own parameter: recurse
 		if id, isID := arg.(*ast.Ident); isID {
 			if v, isVar := cs.in.Info().Uses[id].(*types.Var); isVar && isParamOf(cs.in, v) && !assignedIn(cs.in, v) {
@@ -265,6 +272,16 @@ func (c *Ctx) paramNonEmpty(f *core.Func, p *types.Var, visiting map[*core.Func]
 		whys = append(whys[:3], fmt.Sprintf("... (%d call sites)", len(calls)))
 	}
 	return true, strings.Join(whys, "; ")
+}
+
+// generatedFileOf returns the goyacc output file of f's package ("" if none).
+func (c *Ctx) generatedFileOf(f *core.Func) string {
+	for _, g := range c.P.Gen {
+		if g.Pkg == f.Pkg.Name {
+			return g.GoFile
+		}
+	}
+	return ""
 }
 
 type callSite struct {
